@@ -124,7 +124,7 @@ def probe_ctor_sweep(case, seed):
         C = 1
     elif case == "GeneralVorticityConvectionStepper.injection_scale":
         D, N = 2, 8
-        params = jnp.asarray([0.0, 0.5, 1.0])
+        params = jnp.asarray([-1.0, -0.4, 0.0, 0.5, 1.0])   # both signs and exactly zero: no value-dependent shortcut may differ
         mk = lambda p: gen.GeneralVorticityConvectionStepper(D, 2.0, N, 0.01, injection_scale=p, injection_mode=2)
         C = 1
     else:
